@@ -9,6 +9,9 @@ Template directives (lines starting with `//@`):
       //@loop <n> [<ghost iterator name>]   (following plain lines: invariant/decreases clauses)
       //@before <nth> `<needle>`            (following plain lines: proof text inserted before the needle)
       //@after <nth> `<needle>`
+      //@loopentry <n>                      (following plain lines: proof text inserted at the start of loop n's body; no statement anchor)
+      //@loopexit <n>                       (… inserted right after loop n)
+      //@entry                              (following plain lines: proof text inserted at the start of the body; no anchor)
   //@end
 Everything else is copied through (prelude, spec functions, lemmas, impl headers).
 """
@@ -98,6 +101,8 @@ def expand(unit, repo=None):
                 if cur[0] == 'spec': ann['spec'] = text
                 elif cur[0] == 'loop': ann['loops'][cur[1]] = {'iter': cur[2], 'inv': text}
                 elif cur[0] in ('before', 'after'): ann[cur[0]].append((cur[1], cur[2], text))
+                elif cur[0] == 'entry': ann['entry'] = text
+                elif cur[0] in ('loopentry', 'loopexit'): ann.setdefault(cur[0], {})[cur[1]] = text
             i += 1
             while i < len(lines):
                 l = lines[i]
@@ -109,6 +114,8 @@ def expand(unit, repo=None):
                         break
                     if cmd == 'ret': ann['ret'] = arg
                     elif cmd == 'spec': cur = ('spec',)
+                    elif cmd == 'entry': cur = ('entry',)
+                    elif cmd in ('loopentry', 'loopexit'): cur = (cmd, int(arg.split()[0]))
                     elif cmd == 'loop':
                         a = arg.split()
                         cur = ('loop', int(a[0]), a[1] if len(a) > 1 else None)
@@ -131,7 +138,7 @@ def expand(unit, repo=None):
             src_line = s.line_of(it.sig_start)
             # mark ghost vs code lines: lines that come from the annotation text are ghost
             ghost_texts = set()
-            for t in [ann.get('spec') or ''] + [v['inv'] for v in ann['loops'].values()] + [x[2] for x in ann['before'] + ann['after']]:
+            for t in [ann.get('spec') or ''] + [v['inv'] for v in ann['loops'].values()] + [x[2] for x in ann['before'] + ann['after']] + [ann.get('entry') or ''] + list((ann.get('loopentry') or {}).values()) + list((ann.get('loopexit') or {}).values()):
                 for gl in t.split('\n'):
                     if gl.strip(): ghost_texts.add(gl.strip())
             for l in text.split('\n'):
